@@ -31,7 +31,7 @@ REAL = [
 
 
 def evidence_path(prop):
-    return os.path.join(VERIF, "evidence", "%s.json" % prop)
+    return os.path.join(os.environ.get("VERIF_EVIDENCE_DIR") or os.path.join(VERIF, "evidence"), "%s.json" % prop)
 
 
 def write_evidence(prop, tier, seed, level, total, wall, extra, violations):
